@@ -343,7 +343,10 @@ def snap(x, _stack=None):
     if _stack is None:
         _stack = []
     xid = id(x)
-    if t in (dict, list, tuple) or hasattr(x, "__dict__") and not isinstance(
+    slots = None
+    if not hasattr(x, "__dict__") and not isinstance(x, (dict, list, tuple, type, range, set, frozenset, bytes, enum.Enum)):
+        slots = _slot_names(t)
+    if isinstance(x, (dict, list, tuple)) or slots or hasattr(x, "__dict__") and not isinstance(
         x, (type, types.FunctionType, types.BuiltinFunctionType, types.ModuleType)
     ):
         if xid in _stack:
@@ -358,14 +361,22 @@ def snap(x, _stack=None):
                 return ("list", tuple(snap(i, _stack) for i in x))
             if t is tuple:
                 return ("tuple", tuple(snap(i, _stack) for i in x))
+            if isinstance(x, dict):  # a subclass (OrderedDict, ruamel's maps ...): class name + contents (+ attributes)
+                return ("dict:" + t.__qualname__, tuple((snap(k, _stack), snap(v, _stack)) for k, v in x.items()), snap(getattr(x, "__dict__", None), _stack))
+            if isinstance(x, (list, tuple)):
+                return (("list:" if isinstance(x, list) else "tuple:") + t.__qualname__, tuple(snap(i, _stack) for i in x), snap(getattr(x, "__dict__", None), _stack))
             if isinstance(x, enum.Enum):
                 return ("enum", type(x).__qualname__, x.name)
             if isinstance(x, BaseException):
                 return ("exc", type(x).__qualname__)
+            attrs = dict(vars(x)) if hasattr(x, "__dict__") else {}
+            for name in slots or _slot_names(t):
+                if name not in attrs and hasattr(x, name):
+                    attrs[name] = getattr(x, name)
             return (
                 "obj",
                 f"{t.__module__}.{t.__qualname__}",
-                tuple(sorted((k, snap(v, _stack)) for k, v in vars(x).items())),
+                tuple(sorted((k, snap(v, _stack)) for k, v in attrs.items())),
             )
         finally:
             _stack.pop()
@@ -382,6 +393,39 @@ def snap(x, _stack=None):
     if t is bytes:
         return ("bytes", x.hex())
     return ("opaque", f"{t.__module__}.{t.__qualname__}")
+
+
+def _slot_names(t):
+    names = []
+    for c in getattr(t, "__mro__", ()):
+        s = c.__dict__.get("__slots__", ())
+        if isinstance(s, str):
+            s = (s,)
+        for n in s:
+            if n not in ("__dict__", "__weakref__") and n not in names:
+                names.append(n)
+    return names
+
+
+def rule_projection(r):
+    """What a rule 'is', as far as a caller can tell (path parts, path
+    modifiers, condition, cast, doc) - no object identity, no internal flags,
+    no private bookkeeping attributes."""
+    p = getattr(r, "path", None)
+    g = lambda name: snap(getattr(p, name, "<missing>"))
+    return (
+        "obj",
+        "valida.rules.Rule",
+        (
+            ("cast", snap(getattr(r, "cast", "<missing>"))),
+            ("condition", snap(getattr(r, "condition", "<missing>"))),
+            ("doc", snap(getattr(r, "doc", "<missing>"))),
+            ("path.DATUM_TYPE", g("DATUM_TYPE")),
+            ("path.MULTI_TYPE", g("MULTI_TYPE")),
+            ("path.parts", g("parts")),
+            ("path.source_data", g("source_data")),
+        ),
+    )
 
 
 def diff_path(a, b, path=()):
